@@ -221,51 +221,39 @@ Definition sepr := nohead is_idc.
 Lemma sepr_nodigit r : sepr r -> nohead is_digit r.
 Proof. destruct r as [|c r]; [auto|]. simpl. intros H. now apply not_idc in H. Qed.
 
+Lemma octdigit_digit c : is_octdigit c = true -> is_digit c = true.
+Proof.
+  unfold is_octdigit, is_digit. intros H. apply andb_true_iff in H as [H1 H2].
+  apply N.leb_le in H1, H2. apply andb_true_iff; split; apply N.leb_le; lia.
+Qed.
+
 (* the UintLiteral rule reads back what %d printed *)
 Lemma p_uint_dec n r : n < 2 ^ 64 -> sepr r -> p_uint (dec_str n ++ r) = PGot false n r.
 Proof.
   intros Hn Hr. destruct (dec_str_spec n) as (d & ds & E & Hd & Hnz & Hz & Hv). rewrite E.
-  pose proof Hd as Hd'. simpl in Hd'. apply andb_true_iff in Hd' as [Hc Hds].
+  pose proof Hd as Hd'. cbn [forallb] in Hd'. apply andb_true_iff in Hd' as [Hc Hds].
   pose proof (digit_cases _ Hc) as Hcc.
+  assert (Hsp : span is_digit ((d :: ds) ++ r) = (d :: ds, r)) by (apply span_app; [exact Hd|now apply sepr_nodigit]).
+  assert (H48 : d = 48 -> n = 0 /\ ds = []).
+  { intros ->. destruct (N.eq_dec n 0) as [->|Hn0]; [auto|]. exfalso. apply Hnz; [lia|reflexivity]. }
   unfold p_uint.
   assert (Hlt : lit_text ((d :: ds) ++ r) = Some (d :: ds, r)).
-  { unfold lit_text. destruct (N.eq_dec n 0) as [->|Hn0].
-    - rewrite (Hz eq_refl) in *. simpl in Hv. assert (d = 48) by lia. subst d. cbn [app].
-      destruct r as [|c r'].
-      + reflexivity.
-      + simpl in Hr. apply not_idc in Hr as [Ha Hdg].
-        assert (c <> 120). { intros ->. discriminate Ha. }
-        destruct c as [|p]; [reflexivity|].
-        assert (Hoct : is_octdigit (N.pos p) = false).
-        { unfold is_octdigit. unfold is_digit in Hdg. apply andb_false_iff in Hdg as [Hdg|Hdg].
-          - rewrite Hdg. reflexivity.
-          - apply andb_false_iff. right. apply N.leb_gt. apply N.leb_gt in Hdg. lia. }
-        assert (Hsp : span is_digit (48 :: N.pos p :: r') = ([48], N.pos p :: r')).
-        { cbn [span]. replace (is_digit 48) with true by reflexivity. rewrite Hdg. reflexivity. }
-        destruct (N.eq_dec (N.pos p) 120) as [E120|N120]; [congruence|].
-        cbn [span]. rewrite Hoct.
-        replace (is_digit 48) with true by reflexivity. rewrite Hdg.
-        destruct p as [p|p|]; try reflexivity;
-          repeat (destruct p as [p|p|]; try reflexivity); congruence.
-    - assert (d <> 48) by (apply Hnz; lia).
-      assert (Hsp : span is_digit ((d :: ds) ++ r) = (d :: ds, r)) by (apply span_app; [exact Hd|now apply sepr_nodigit]).
-      cbn [app] in *.
-      destruct d as [|p]; [lia|].
-      assert (forall A (x y : A), match N.pos p with 48 => x | _ => y end = y) as Hm.
-      { intros A x y. destruct p as [p|p|]; try reflexivity;
-          repeat (destruct p as [p|p|]; try reflexivity). congruence. }
-      rewrite Hsp.
-      destruct p as [p|p|]; try reflexivity;
-          repeat (destruct p as [p|p|]; try reflexivity); congruence. }
+  { unfold lit_text.
+    assert (Hhex : lit_hex ((d :: ds) ++ r) = None).
+    { unfold lit_hex. cbn [app]. destruct (ds ++ r) as [|c2 t] eqn:E2; [reflexivity|].
+      destruct (d =? 48) eqn:E48; [|reflexivity]. cbn [andb]. destruct (c2 =? 120) eqn:E120; [|reflexivity]. exfalso.
+      apply N.eqb_eq in E48, E120. subst c2. destruct (H48 E48) as [_ ->]. cbn [app] in E2. rewrite E2 in Hr. discriminate Hr. }
+    rewrite Hhex.
+    assert (Hoct : lit_oct ((d :: ds) ++ r) = None).
+    { unfold lit_oct. cbn [app]. destruct (d =? 48) eqn:E48; [|reflexivity]. apply N.eqb_eq in E48.
+      destruct (H48 E48) as [_ ->]. cbn [app].
+      destruct r as [|c r']; [reflexivity|]. simpl in Hr. apply not_idc in Hr as [_ Hdg]. cbn [span].
+      destruct (is_octdigit c) eqn:Eo; [apply octdigit_digit in Eo; congruence|reflexivity]. }
+    rewrite Hoct. unfold lit_dec. rewrite Hsp. reflexivity. }
   rewrite Hlt.
   assert (Hpu : parse_uint_go (d :: ds) = Some n).
-  { unfold parse_uint_go. destruct (N.eq_dec n 0) as [->|Hn0].
-    - rewrite (Hz eq_refl) in *. simpl in Hv. assert (d = 48) by lia. subst d. reflexivity.
-    - assert (d <> 48) by (apply Hnz; lia).
-      assert (Hdv : digits_val 10 0 (d :: ds) = Some n).
-      { rewrite digits_val_dec; [now rewrite Hv|exact Hd|now rewrite Hv]. }
-      destruct d as [|p]; [lia|].
-      destruct p as [p|p|]; try exact Hdv;
-          repeat (destruct p as [p|p|]; try exact Hdv); congruence. }
+  { unfold parse_uint_go. destruct (d =? 48) eqn:E48.
+    - apply N.eqb_eq in E48. destruct (H48 E48) as [-> ->]. reflexivity.
+    - rewrite digits_val_dec; [now rewrite Hv|exact Hd|now rewrite Hv]. }
   now rewrite Hpu.
 Qed.
